@@ -31,6 +31,26 @@ import interp
 # candidate sub-procedures (besides every instruction of exo.platforms.x86)
 
 SUBSRC = '''
+@config
+class CfgLd:
+    scale: f32
+    k: index
+
+@config
+class CfgSt:
+    scale: f32
+    k: index
+
+@proc
+def cfg_scale(n: size, dst: [f32][n]):
+    for i in seq(0, n):
+        dst[i] = CfgLd.scale * dst[i]
+
+@proc
+def inner_neg(n: size, dst: [R][n], src: [R][n]):
+    for i in seq(0, n):
+        dst[i] = -src[i]
+
 @proc
 def cp8(n: size, dst: [f32][n], src: [f32][n]):
     assert n == 8
@@ -147,10 +167,13 @@ def row_bcast(n: size, m: size, dst: [R][n, m], v: [R][m]):
     for i in seq(0, n):
         for j in seq(0, m):
             dst[i, j] = v[j]
+
+# a DIFFERENT procedure that is also called `inner_cp` (same-name near miss for calls inside a callee body)
+inner_cp_alt = rename(inner_neg, "inner_cp")
 '''
 
 MUTS = ["hi+1", "hi-1", "lo1", "scale2", "swapkind", "extra", "swapops", "const", "alias",
-        "iter", "leq", "negate", "off1", "drop", "op", "addelse"]
+        "iter", "leq", "negate", "off1", "drop", "op", "addelse", "cfgswap", "callswap"]
 
 
 class Skip(Exception):
@@ -298,6 +321,13 @@ class KGen:
             return f"({a} {op} {b})"
         if isinstance(e, L.Extern):
             return f"{e.f.name()}({', '.join(self.de(a) for a in e.args)})"
+        if isinstance(e, L.ReadConfig):
+            cn = e.config.name()
+            if self.mut == "cfgswap" and not self.mut_done:
+                # near miss: the block reads the same field of ANOTHER configuration struct
+                self.mut_done = True
+                cn = {"CfgLd": "CfgSt", "CfgSt": "CfgLd"}.get(cn, cn)
+            return f"{cn}.{e.field}"
         raise Skip(f"data expr {type(e).__name__}")
 
     def stmts(self, ss, ind, top=False):
@@ -356,7 +386,12 @@ class KGen:
                 args = []
                 for fa, a in zip(s.f.args, s.args):
                     args.append(self.ve(a) if fa.type.is_numeric() else self.ce(a, True))
-                out.append(f"{pad}{s.f.name}({', '.join(args)})")
+                fn = str(s.f.name)
+                if self.mut == "callswap" and not self.mut_done and fn == "inner_cp":
+                    # near miss: a call to a different procedure that is also named `inner_cp`
+                    self.mut_done = True
+                    fn = "inner_cp_alt"
+                out.append(f"{pad}{fn}({', '.join(args)})")
             elif isinstance(s, L.Alloc):
                 nm = f"t{len(self.local)}"
                 self.local[s.name] = nm
@@ -986,7 +1021,7 @@ def run_case(chk, ctx, exo, cands, cname, mut, idx, replay_src=None):
 def applicable(exo, ir):
     """mutations that change something in a kernel printed from this callee"""
     from exo.core.LoopIR import LoopIR, T
-    has = {"const": False, "lt": False, "binop": False, "multi": False, "read": False, "for": False, "if_noelse": False}
+    has = {"const": False, "lt": False, "binop": False, "multi": False, "read": False, "for": False, "if_noelse": False, "cfgread": False, "call_inner_cp": False}
 
     def ex(e, data):
         if isinstance(e, LoopIR.Const) and data:
@@ -1002,6 +1037,8 @@ def applicable(exo, ir):
             ex(e.arg, data)
         if isinstance(e, LoopIR.Read) and data:
             has["read"] = True
+        if isinstance(e, LoopIR.ReadConfig) and data and e.config.name() in ("CfgLd", "CfgSt"):
+            has["cfgread"] = True
         if isinstance(e, LoopIR.Extern):
             for a in e.args:
                 ex(a, data)
@@ -1012,6 +1049,9 @@ def applicable(exo, ir):
         for s in ss:
             if isinstance(s, (LoopIR.Assign, LoopIR.Reduce)):
                 ex(s.rhs, True)
+            elif isinstance(s, LoopIR.Call):
+                if str(s.f.name) == "inner_cp":
+                    has["call_inner_cp"] = True
             elif isinstance(s, LoopIR.For):
                 has["for"] = True
                 st(s.body)
@@ -1041,6 +1081,10 @@ def applicable(exo, ir):
         out += ["drop"]
     if has["if_noelse"]:
         out += ["addelse"]
+    if has["cfgread"]:
+        out += ["cfgswap"]
+    if has["call_inner_cp"]:
+        out += ["callswap"]
     if len(ranks) >= 2 and len(set(ranks)) < len(ranks):
         out += ["alias"]
     return out
